@@ -124,7 +124,7 @@ def mir_path(crate):
         sub, sel = MIR_CRATES[crate]
         tdir = os.path.join(wd, "mir-target")
         cmd = ["cargo", "+nightly", "rustc", "--offline"] + sel + ["--", "-Zunpretty=mir", "-C", "overflow-checks=on",
-                                                                   "-C", "debug-assertions=on"]
+                                                                   "-C", "debug-assertions=off"]
         env = cargo_env({"CARGO_TARGET_DIR": tdir})
         tmp = out + ".tmp"
         with open(tmp, "w") as fh:
@@ -228,6 +228,8 @@ fn kinds_json(v: Vec<rspirv::grammar::LogicalOperand>) -> String {
         conv = "spirv::%s::from_bits(n)" % k if k in masks else "spirv::%s::from_u32(n)" % k
         o.append('        "%s" => match %s { Some(v) => { let op = Operand::%s(v); format!("{{\\"capabilities\\": [{}], \\"extensions\\": [{}]}}", op.required_capabilities().iter().map(|c| format!("\\"{:?}\\"", c)).collect::<Vec<_>>().join(", "), op.required_extensions().iter().map(|c| format!("\\"{}\\"", c)).collect::<Vec<_>>().join(", ")) } None => "{\\"error\\": \\"undeclared value\\"}".to_string() },' % (k, conv, k))
     o.append('        _ => "{\\"error\\": \\"unknown kind\\"}".to_string(),\n    }\n}')
+    import genreplay
+    o.append(genreplay.generate())
     txt = "\n".join(o) + "\n"
     if not os.path.exists(path) or open(path).read() != txt:
         with open(path, "w") as f:
